@@ -192,8 +192,9 @@ class Cx:
             if not ok:
                 self.replay_violations.append(dict(label=label, detail="condition false"))
 
-    def prove_eq(self, label, A, B, tol=1e-7, each=True):
-        """element-wise equality of scalars / arrays (complex allowed)"""
+    def prove_eq(self, label, A, B, tol=1e-7, each=True, lemma=False):
+        """element-wise equality of scalars / arrays (complex allowed).  lemma=True: every element equality
+        the solver has proved is added to the assumptions (a derived fact, available to later queries)"""
         import numpy
         if self.sym:
             from symnum import core
@@ -229,6 +230,10 @@ class Cx:
                     self._prove_sym("%s%s.%s" % (label, list(idx), part), g)
                     if self.records[-1]["verdict"] == "sat":
                         nsat += 1
+                    elif lemma and self.records[-1]["verdict"] == "unsat":
+                        from symnum.core import ENGINE
+                        ENGINE.assumptions.append(g)
+                        self.note("equalities proved as lemmas are used by later queries")
             else:
                 self._prove_sym(label, z3.And([g for _, _, g in goals]))
         else:
